@@ -898,7 +898,21 @@ int main(int argc, char **argv) {
     long b0 = minBudget;
     Outcome o = execute(s);
     if (o.status == "ok" || o.sig != sig) { printf("not-reproduced\t%s\t%s\n", o.status.c_str(), o.sig.c_str()); return 1; }
+    // most failures are in the shared front end: minimise with the first single translator that shows it
+    unsigned full = parserMask;
+    for (int p = 0; p < NP; ++p) {
+      if (!(full & (1u << p))) continue;
+      parserMask = 1u << p;
+      Outcome q = execute(s);
+      if (q.status != "ok" && q.sig == sig) break;
+      parserMask = full;
+    }
     std::string m = minimise(s, sig);
+    if (parserMask != full) {
+      parserMask = full;
+      Outcome q = execute(m);
+      if (q.status == "ok" || q.sig != sig) m = s;    // must still fail with all translators
+    }
     writeFile(files[1], m);
     printf("minimised\t%zu\t%zu\t%ld\n", s.size(), m.size(), b0 - minBudget);
     return 0;
